@@ -62,11 +62,9 @@ func VerifNewLancero(cfg VerifLanceroConfig) (*VerifLancero, error) {
 	})
 	ls := new(LanceroSource)
 	ls.name = "Lancero"
-	ls.nsamp = cfg.Nsamp
 	ls.devices = make(map[int]*LanceroDevice)
 	ls.channelsPerPixel = 2
-	dev := &LanceroDevice{devnum: cfg.Devnum, nrows: cfg.Nrows, ncols: cfg.Ncols, lsync: 40, clockMHz: 125,
-		frameSize: cfg.Ncols * cfg.Nrows * 4, card: cfg.Card}
+	dev := &LanceroDevice{devnum: cfg.Devnum, lsync: 40, clockMHz: 125}
 	ls.devices[cfg.Devnum] = dev
 	ls.ncards = 1
 	for _, d := range cfg.OtherDevs {
@@ -78,8 +76,33 @@ func VerifNewLancero(cfg VerifLanceroConfig) (*VerifLancero, error) {
 	ls.active = []*LanceroDevice{dev}
 	ls.clockMHz = 125
 	ls.firstRowChanNum = 1
-	ls.nchan = cfg.Ncols * cfg.Nrows * 2
-	ls.sampleRate = cfg.SampleRate
+	v := &VerifLancero{LS: ls}
+	if err := v.Restart(cfg.Card, cfg.Ncols, cfg.Nrows, cfg.Nsamp, cfg.SampleRate); err != nil {
+		return nil, err
+	}
+	return v, nil
+}
+
+// Restart prepares the SAME source object for another run with (possibly) another geometry, through the calls
+// Start makes: the part of Configure/Sample that needs hardware or ~/.cringe is replaced by setting the facts
+// they would have learned (rows, columns, frame size, NSAMP, sample rate); then, exactly as Sample does,
+// dataBlockCount = 0, nchan, samplePeriod, updateChanOrderMap, voltsPerArb and the mix channels; then the real
+// PrepareChannels and PrepareRun. The previous run must have been stopped (Abort + drained).
+func (v *VerifLancero) Restart(card lancero.Lanceroer, ncols, nrows, nsamp int, sampleRate float64) error {
+	ls := v.LS
+	v.Cleanup()
+	v.pending = nil
+	dev := ls.active[0]
+	dev.card = card
+	dev.nrows, dev.ncols = nrows, ncols
+	dev.frameSize = ncols * nrows * 4
+	ls.nsamp = nsamp
+	ls.dataBlockCount = 0
+	ls.nchan = 0
+	for _, device := range ls.active {
+		ls.nchan += device.ncols * device.nrows * 2
+	}
+	ls.sampleRate = sampleRate
 	ls.samplePeriod = time.Duration(roundint(1e9 / ls.sampleRate))
 	ls.updateChanOrderMap()
 	ls.voltsPerArb = make([]float32, ls.nchan)
@@ -89,12 +112,9 @@ func VerifNewLancero(cfg VerifLanceroConfig) (*VerifLancero, error) {
 	ls.mixRequests = make(chan *MixFractionObject, 10)
 	ls.currentMix = make(chan []float64, 10)
 	if err := ls.PrepareChannels(); err != nil {
-		return nil, err
+		return err
 	}
-	if err := ls.PrepareRun(4, 8); err != nil {
-		return nil, err
-	}
-	return &VerifLancero{LS: ls}, nil
+	return ls.PrepareRun(4, 8)
 }
 
 // Launch starts the real reader goroutine.
